@@ -101,13 +101,16 @@ enum Hist {
     DirectDataThenRun,
     /// RENUM, then RUN: RESTORE n follows its line (error line numbers are not compared)
     RenumThenRun,
+    /// the same with line numbers above 32767 (RESTORE n with a large n)
+    RenumHighThenRun,
     /// direct READs until OUT OF DATA (and once more), DATA appended behind the old end, READ
     OverReadThenAppend,
     /// two direct READs, NEW, the program typed again, a direct READ
     ReadNewRetype,
 }
 
-const HISTS: [Hist; 13] = [
+const HISTS: [Hist; 14] = [
+    Hist::RenumHighThenRun,
     Hist::OverReadThenAppend,
     Hist::ReadNewRetype,
     Hist::RenumThenRun,
@@ -290,6 +293,9 @@ fn judge(p: &Prog, h: Hist, ctx: &mut Ctx) {
                 s.enter("READ Q");
                 s.enter("RENUM 1000,0,7");
             }
+            Hist::RenumHighThenRun => {
+                s.enter("RENUM 40000,0,5000");
+            }
             Hist::OverReadThenAppend | Hist::ReadNewRetype => unreachable!(),
             Hist::DirectDataThenRun => {
                 s.enter("RUN");
@@ -314,7 +320,7 @@ fn judge(p: &Prog, h: Hist, ctx: &mut Ctx) {
     match r {
         Err(pn) => ctx.violation("READ-DATA/panic", pn),
         Ok(got) => {
-            let (got, exp) = if h == Hist::RenumThenRun { (super::common::strip_lines(&got), super::common::strip_lines(&exp)) } else { (got, exp) };
+            let (got, exp) = if h == Hist::RenumThenRun || h == Hist::RenumHighThenRun { (super::common::strip_lines(&got), super::common::strip_lines(&exp)) } else { (got, exp) };
             if got != exp {
                 let class = match h {
                     Hist::Fresh => "wrong-order-or-conversion",
@@ -371,7 +377,7 @@ impl Check for C09 {
     fn meta(&self, tier: Tier) -> Meta {
         Meta {
             bound: format!(
-                "every program of 1..{} lines, in every order, over 20 line bodies: DATA 1 | -4,3.5 | \"two\" | 40000 | 5,\"s\",6, DATA after a PRINT, DATA inside IF 0 THEN; READ into A, A%, A$, A#, D(1), A,B$ (each followed by PRINT), conditional READ, RESTORE, RESTORE first/last/own/absent line, a loop back to the first line; each under 11 histories (RENUM then RUN, fresh, RUN twice, READ then CLEAR, two direct READs then RUN, RUN then direct READ, RUN then insert a DATA line then RUN, RUN interrupted after 9 instructions then RUN, RUN then RUN 10, two direct READs then RUN 10, RUN then a direct DATA line (must be refused) then RUN)",
+                "every program of 1..{} lines, in every order, over 20 line bodies: DATA 1 | -4,3.5 | \"two\" | 40000 | 5,\"s\",6, DATA after a PRINT, DATA inside IF 0 THEN; READ into A, A%, A$, A#, D(1), A,B$ (each followed by PRINT), conditional READ, RESTORE, RESTORE first/last/own/absent line, a loop back to the first line; each under 14 histories (RENUM then RUN - also to line numbers above 32767 -, over-read then appended DATA, NEW then retyped, fresh, RUN twice, READ then CLEAR, two direct READs then RUN, RUN then direct READ, RUN then insert a DATA line then RUN, RUN interrupted after 9 instructions then RUN, RUN then RUN 10, two direct READs then RUN 10, RUN then a direct DATA line (must be refused) then RUN)",
                 tier.pick(4, 5)
             ),
             rule: "a case is (program, history); compared: the transcript of the final RUN (or direct READ); distinct_nontrivial = distinct expected transcripts".into(),
